@@ -343,8 +343,9 @@ func removeFromStore(db util.NodeDB, key []byte) {
 
 func init() {
 	fw.Register(&fw.Prop{
-		ID:    "C17",
-		Level: "exploration",
+		ID:           "C17",
+		EvalCounters: []string{"removal_sets"},
+		Level:        "exploration",
 		Rule: "each case builds a trie over 1..4 versions (so node origins differ) and then, for every single reachable non-root node (up to 24; exhaustive for small tries), 3 whole subtrees, 4 scattered subsets and the empty set, " +
 			"copies the trie into a store (memory / layered / persistent) without the removed nodes and a donor store with them. A trie opened at a version equal to or above the creating versions must: report HasMissingNodes iff the frontier is non-empty; " +
 			"GetAllMissingNodes == frontier (absent nodes reachable through present ones, computed by the harness); lookups through an absent node fail with ErrNodeNotFound, others return the model value, never-stored paths never return data; partial iteration yields only true pairs; " +
